@@ -56,10 +56,64 @@ func RunHistory(dir string, c Cfg, id string, next func() (Call, bool), wantTree
 	s := NewSession(e)
 	hist := &History{ID: id, Cfg: c}
 	prevBlocks := int64(0)
+	var snapshot []byte
 	for i := 0; ; i++ {
 		call, ok := next()
 		if !ok {
 			break
+		}
+		if strings.HasPrefix(call.Method, "@") {
+			// directives: not calls on the instance but events around it
+			switch call.Method {
+			case "@snapshot":
+				e.Close()
+				snapshot, _ = os.ReadFile(e.DBPath)
+			case "@reopen":
+				// a fresh process over the same drive: new managers, new persister, no handles
+				e.Close()
+				mode := "keep"
+				nc := c
+				for _, a := range call.Args {
+					switch {
+					case strings.HasPrefix(a, "index="):
+						mode = strings.TrimPrefix(a, "index=")
+					case a == "ro=1":
+						nc.ReadOnly = true
+					case a == "ro=0":
+						nc.ReadOnly = false
+					case a == "nowrite=1":
+						nc.NoWriteOps = true
+					}
+				}
+				db := e.DBPath + fmt.Sprintf(".%d", i)
+				switch mode {
+				case "keep":
+					data, _ := os.ReadFile(e.DBPath)
+					os.WriteFile(db, data, 0o644)
+				case "snap":
+					os.WriteFile(db, snapshot, 0o644)
+				case "drop":
+				}
+				ne, err := NewEnvAt(dir, e.Drive, db, nc)
+				if err != nil {
+					return nil, err
+				}
+				e = ne
+				defer ne.Close()
+				s = NewSession(e)
+				c = nc
+			}
+			st := Step{Call: call, Res: "ok", Env: "env\tnow=0\trecs=-"}
+			st.Obs = append(st.Obs, "res\tok")
+			rows, err := e.RowLines()
+			if err != nil {
+				return nil, err
+			}
+			st.Obs = append(st.Obs, rows...)
+			_, blocks, _ := ScanTape(e.Drive, prevBlocks)
+			st.Obs = append(st.Obs, e.RootLine(), fmt.Sprintf("blocks\t%d", blocks))
+			hist.Steps = append(hist.Steps, st)
+			continue
 		}
 		res := s.Exec(call)
 		st := Step{Call: call, Res: strings.TrimPrefix(strings.SplitN(res+"\t", "\t", 3)[1], "")}
